@@ -88,6 +88,17 @@ class Program(Unit):
                     a = em.attr_text(st)
                     ok = attr(a, 'prefix') == 'soapenv' and attr(a, 'rename') == 'Envelope' and '"soapenv" = "http://schemas.xmlsoap.org/soap/envelope/"' in a
                     res.append((f'wire:{env}#soap-envelope-element', ok, 'struct attribute ' + a[:160]))
+        # the service methods (async, not verified by Verus) must hand exactly the stored client, address and credentials and the
+        # request to the helper that is proved in unit S: compared as a token sequence
+        WANT_CALL = 'helpers :: send_soap_request_using_client ( & self . client , & self . location , credentials , req ) . await'
+        WANT_CRED = 'let credentials = self . credentials . as_ref ( ) . map ( | ( u , p ) | ( u . as_str ( ) , p . as_str ( ) ) ) ;'
+        for it in em.root:
+            if it.kind == 'impl' and m.service and it.name == m.service:
+                for c in it.children:
+                    if c.kind == 'fn' and c.name != 'new' and c.open is not None:
+                        body = ' '.join(t.text for t in c.toks[c.open + 1:c.last] if t.kind not in ('ws', 'comment', 'doc'))
+                        ok = body == WANT_CRED + ' ' + WANT_CALL
+                        res.append((f'wire:{it.name}::{c.name}#forwards-client-address-credentials-request', ok, 'method body: ' + body[:300]))
         return res
 
     # ---- C02 / C08: member ORDER (a struct pattern is insensitive to field order, so this is compared on the index)
@@ -180,7 +191,10 @@ class Program(Unit):
                     if os.path.basename(sp_.get('file_name', '')) != fname:
                         continue
                     info = out.describe(sp_['line_start'])
-                    if info.get('kind') == 'code' and str(info.get('file', '')).startswith('emitted:'):
+                    ltxt = lines[sp_['line_start'] - 1] if 0 < sp_['line_start'] <= len(lines) else ''
+                    # only a struct member / alias line of the emitted file (`pub x: T,` / `pub type X = T;`): an unresolved path elsewhere
+                    # (client methods, helper calls) may be a limit of the stand-ins and stays inconclusive
+                    if info.get('kind') == 'code' and str(info.get('file', '')).startswith('emitted:') and re.match(r'\s*pub\s+(type\s+\w+\s*=|(r#)?\w+\s*:)', ltxt):
                         f = Failure(self.name, RESOLVE_OB, 'a type named by the emitted code does not exist in the scope it is used in: ' + d.message,
                                     [{'file': info['file'], 'line': info.get('line', 0), 'text': lines[sp_['line_start'] - 1].strip() if 0 < sp_['line_start'] <= len(lines) else '', 'what': 'emitted line'}], d.rendered)
                         f.props = [self.concern]
